@@ -8,6 +8,7 @@ package core
 // with it component by component. Records; TLC (spec/core/Reload.tla, TraceReload.tla) decides.
 
 import (
+	"runtime"
 	"context"
 	"fmt"
 	"go/ast"
@@ -27,6 +28,7 @@ import (
 	"github.com/bluenviron/gortsplib/v5"
 
 	"github.com/bluenviron/mediamtx/internal/conf"
+	"github.com/bluenviron/mediamtx/internal/conf/jsonwrapper"
 	"github.com/bluenviron/mediamtx/internal/logger"
 	"github.com/bluenviron/mediamtx/internal/test"
 	"github.com/bluenviron/mediamtx/internal/verifrt"
@@ -92,18 +94,23 @@ func vf13Snapshot(p *Core, name string) (string, []string) {
 			if name != "pathManager" {
 				continue
 			}
-			if fv.Kind() == reflect.Map || fv.Kind() == reflect.Struct || fv.Kind() == reflect.Slice {
-				continue // paths, pathConfs (hot-reloaded, C15), wg
+			if f.Name != "pathConfs" && (fv.Kind() == reflect.Map || fv.Kind() == reflect.Struct || fv.Kind() == reflect.Slice) {
+				continue // paths, wg
 			}
 		}
 		if f.Type.PkgPath() == "sync" || f.Type.PkgPath() == "context" {
 			continue
 		}
-		if name == "pathManager" && f.Name == "pathConfs" {
+		if f.Name == "PathConfs" || (name == "pathManager" && f.Name == "pathConfs") {
+			// path configurations are applied in place (their content is C15's subject): here only
+			// WHICH path configurations the component runs with
+			names := []string{}
+			for _, k := range fv.MapKeys() {
+				names = append(names, k.String())
+			}
+			sort.Strings(names)
+			sb.WriteString(f.Name + "=" + strings.Join(names, ",") + ";")
 			continue
-		}
-		if f.Name == "PathConfs" {
-			continue // path configurations are reloaded in place (C15)
 		}
 		sb.WriteString(f.Name)
 		sb.WriteString("=")
@@ -464,15 +471,35 @@ func vf13Experiment(base *conf.Conf, newConf *conf.Conf, rec *vf13Rec) {
 		return
 	}
 	idsBefore := map[string]uintptr{}
+	// the old instances are kept reachable until the end of the experiment, so that the
+	// allocator cannot hand their addresses to new objects (identity is compared by address)
+	keep := []reflect.Value{}
 	for _, c := range vf13Comps {
 		idsBefore[c] = vf13ID(live, c)
+		keep = append(keep, vf13Comp(live, c))
 	}
+	defer runtime.KeepAlive(&keep)
 	if err := live.reloadConf(newConf.Clone()); err != nil {
 		rec.Skipped = "reload failed: " + err.Error()
 		vf13Close(live)
 		return
 	}
+	// in-place reloads (path configurations, internal users) are handed to the services' own loops:
+	// give them a moment to apply what they were given
 	snapLive, _ := vf13Snapshots(live)
+	for try := 0; try < 200; try++ {
+		same := true
+		for _, c := range vf13Comps {
+			if snapLive[c] != snapNew[c] {
+				same = false
+			}
+		}
+		if same {
+			break
+		}
+		time.Sleep(5 * time.Millisecond)
+		snapLive, _ = vf13Snapshots(live)
+	}
 	rec.Differs, rec.Recreated, rec.Stale, rec.StaleRefs, rec.Present, rec.PresentL = []string{}, []string{}, []string{}, []string{}, []string{}, []string{}
 	rec.RefsNew = refsNew
 	rec.Detail = map[string]string{}
@@ -628,6 +655,53 @@ func TestVerif_C13_Reload(t *testing.T) {
 		out.Emit(rec)
 		if rec.Skipped == "" {
 			cands = append(cands, cand{f, alt})
+		}
+	}
+	// the set of path configurations, alone and together with each global parameter of PATHPAIRS
+	// ("*" = every parameter that could be exercised): services that keep running must apply the
+	// new path configurations in place, services that are recreated must be built with them
+	withPath := func(c *conf.Conf) (*conf.Conf, error) {
+		nc := c.Clone()
+		var op conf.OptionalPath
+		if err := jsonwrapper.Unmarshal([]byte(`{"recordDeleteAfter":"2h"}`), &op); err != nil {
+			return nil, err
+		}
+		if err := nc.AddPath("vfextra", &op); err != nil {
+			return nil, err
+		}
+		if err := nc.Validate(nil); err != nil {
+			return nil, err
+		}
+		return nc, nil
+	}
+	if pp := verifrt.ParamS("PATHPAIRS", ""); pp != "" {
+		want := map[string]bool{}
+		for _, x := range strings.Split(pp, ",") {
+			want[x] = true
+		}
+		rec := &vf13Rec{Kind: "paths", Param: "paths", Params: []string{"paths"}}
+		if nc, err := withPath(base); err != nil {
+			rec.Skipped = "cannot add a path: " + err.Error()
+		} else {
+			vf13Experiment(base, nc, rec)
+		}
+		out.Emit(rec)
+		for _, ca := range cands {
+			tag := strings.Split(ca.f.Tag.Get("json"), ",")[0]
+			if !want["*"] && !want[tag] {
+				continue
+			}
+			rec := &vf13Rec{Kind: "pathpair", Param: "paths+" + tag, Params: []string{"paths", tag}}
+			nc := base.Clone()
+			reflect.ValueOf(nc).Elem().FieldByName(ca.f.Name).Set(ca.alt)
+			nc2, err := withPath(nc)
+			if err != nil {
+				rec.Skipped = "rejected: " + err.Error()
+				out.Emit(rec)
+				continue
+			}
+			vf13Experiment(base, nc2, rec)
+			out.Emit(rec)
 		}
 	}
 	// parameters that are only valid when changed together (port pairs, key + certificate)
